@@ -157,7 +157,7 @@ pub fn world() -> World {
     let own = |r: u32| Ty::Own(r);
     let bor = |r: u32| Ty::Borrow(r);
     let res_str = |r: u32| Ty::Result(Some(Box::new(Ty::Own(r))), Some(Box::new(Ty::String)));
-    let mut add_imp = |funcs: &mut Vec<RFunc>, name: &str, field: &str, params: Vec<Ty>, result: Option<Ty>| {
+    let add_imp = |funcs: &mut Vec<RFunc>, name: &str, field: &str, params: Vec<Ty>, result: Option<Ty>| {
         funcs.push(RFunc { name: name.into(), side: Side::Import, params, result, module: IMP.into(), sym: field.into() });
     };
     // ---- interface imp
@@ -183,12 +183,12 @@ pub fn world() -> World {
     // built-ins of the exported resources
     for (r, name) in [(CELL, "cell"), (FCELL, "fcell")] {
         let m = format!("[export]{EXP}");
-        funcs.push(RFunc { name: format!("{name}.new"), side: Side::Import, params: vec![Ty::U32], result: Some(own(r)), module: m.clone(), sym: format!("[resource-new]{name}") });
-        funcs.push(RFunc { name: format!("{name}.rep"), side: Side::Import, params: vec![own(r)], result: Some(Ty::U32), module: m.clone(), sym: format!("[resource-rep]{name}") });
+        funcs.push(RFunc { name: format!("{name}.new"), side: Side::Import, params: vec![Ty::U64], result: Some(own(r)), module: m.clone(), sym: format!("[resource-new]{name}") });
+        funcs.push(RFunc { name: format!("{name}.rep"), side: Side::Import, params: vec![own(r)], result: Some(Ty::U64), module: m.clone(), sym: format!("[resource-rep]{name}") });
         funcs.push(RFunc { name: format!("{name}.drop"), side: Side::Import, params: vec![own(r)], result: None, module: m.clone(), sym: format!("[resource-drop]{name}") });
     }
     // ---- interface exp
-    let mut add_exp = |funcs: &mut Vec<RFunc>, name: &str, field: &str, params: Vec<Ty>, result: Option<Ty>| {
+    let add_exp = |funcs: &mut Vec<RFunc>, name: &str, field: &str, params: Vec<Ty>, result: Option<Ty>| {
         funcs.push(RFunc { name: name.into(), side: Side::Export, params, result, module: String::new(), sym: format!("{EXP}#{field}") });
     };
     exp.push_str("  use imp.{thing, rec-thing, var-thing};\n");
@@ -200,9 +200,11 @@ pub fn world() -> World {
     add_exp(&mut funcs, "cell.make", "[static]cell.make", vec![Ty::U32], Some(own(CELL)));
     add_exp(&mut funcs, "cell.try-make", "[static]cell.try-make", vec![Ty::U32, Ty::Bool], Some(res_str(CELL)));
     add_exp(&mut funcs, "fcell.ctor", "[constructor]fcell", vec![Ty::U32, Ty::Bool], Some(res_str(FCELL)));
-    // destructors: `(rep)`; the representation is an i32 in the canonical ABI
-    funcs.push(RFunc { name: "cell.dtor".into(), side: Side::Export, params: vec![Ty::U32], result: None, module: String::new(), sym: format!("{EXP}#[dtor]cell") });
-    funcs.push(RFunc { name: "fcell.dtor".into(), side: Side::Export, params: vec![Ty::U32], result: None, module: String::new(), sym: format!("{EXP}#[dtor]fcell") });
+    // destructors: `(rep)`. The representation is an i32 in the canonical ABI; the generated
+    // native code declares it (and `[resource-new]` / `[resource-rep]`) pointer-sized, so the
+    // table uses u64 for these three positions — the pointer-width-8 extrapolation.
+    funcs.push(RFunc { name: "cell.dtor".into(), side: Side::Export, params: vec![Ty::U64], result: None, module: String::new(), sym: format!("{EXP}#[dtor]cell") });
+    funcs.push(RFunc { name: "fcell.dtor".into(), side: Side::Export, params: vec![Ty::U64], result: None, module: String::new(), sym: format!("{EXP}#[dtor]fcell") });
     for s in OWN_SHAPES {
         let n = s.name();
         writeln!(exp, "  take-own-{n}: func(x: {}, keep: u32) -> u32;", s.wit("cell", false)).unwrap();
@@ -217,9 +219,15 @@ pub fn world() -> World {
     for s in BORROW_SHAPES {
         let n = s.name();
         writeln!(exp, "  take-borrow-{n}: func(x: {}) -> u32;", s.wit("cell", true)).unwrap();
-        writeln!(exp, "  recv-thing-borrow-{n}: func(x: {}) -> u32;", s.wit("thing", true)).unwrap();
         add_exp(&mut funcs, &format!("exp.take-borrow-{n}"), &format!("take-borrow-{n}"), vec![s.ty(bor(CELL))], Some(Ty::U32));
-        add_exp(&mut funcs, &format!("exp.recv-thing-borrow-{n}"), &format!("recv-thing-borrow-{n}"), vec![s.ty(bor(THING))], Some(Ty::U32));
+        // `list<borrow<imported resource>>` as an export parameter does not compile on the
+        // unchanged tree (E0506: the owning temporary `handleN` is declared once outside the
+        // per-element loop; crates/rust/src/bindgen.rs HandleLift / handle_decls) — a build
+        // defect (C09), left out of this world.
+        if s != Shape::List {
+            writeln!(exp, "  recv-thing-borrow-{n}: func(x: {}) -> u32;", s.wit("thing", true)).unwrap();
+            add_exp(&mut funcs, &format!("exp.recv-thing-borrow-{n}"), &format!("recv-thing-borrow-{n}"), vec![s.ty(bor(THING))], Some(Ty::U32));
+        }
     }
     // drivers (scalars only)
     exp.push_str("  give-kept: func(slot: u32) -> cell;\n  drop-kept: func(slot: u32) -> u32;\n");
@@ -309,6 +317,10 @@ impl Drop for MyFcell {
 #[no_mangle]
 pub unsafe extern "C" fn verif_r_live_cells() -> u32 {
     LIVE_CELLS
+}
+#[no_mangle]
+pub unsafe extern "C" fn verif_r_reset() {
+    N_DESTROYED = 0;
 }
 #[no_mangle]
 pub unsafe extern "C" fn verif_r_destroyed(out: *mut u32, cap: usize) -> usize {
@@ -420,7 +432,6 @@ impl e::Guest for Component {
     fn take_borrow_tup(x: (u32, CellBorrow<'_>)) -> u32 { chk(x.0 == 78); x.1.get::<MyCell>().id }
     fn recv_thing_borrow_direct(x: &Thing) -> u32 { x.get_id() }
     fn recv_thing_borrow_opt(x: Option<&Thing>) -> u32 { match x { Some(b) => b.get_id(), None => die("option none") } }
-    fn recv_thing_borrow_list(x: Vec<&Thing>) -> u32 { chk(x.len() == 1); x[0].get_id() }
     fn recv_thing_borrow_tup(x: (u32, &Thing)) -> u32 { chk(x.0 == 78); x.1.get_id() }
     fn give_kept(slot: u32) -> Cell {
         unsafe {
